@@ -659,6 +659,49 @@ def world_soundness(prog, R, V):
                             return None
                     return w
                 what = "coefficient * base**1"
+            elif cls == "Add" and rng in ("dict", "x.get_dict()"):
+                # coef + c*key with the signs of the numbers coef and c
+                # taken from the handler's own boolean atoms
+                lv = tri.leaves(prog, f, mem, limit=30000, unroll=1,
+                                own=own, meta=meta)
+                objs = {"%s.first #0" % var: 0}
+                extra = None
+
+                def result(bools, ws, var=var):
+                    sg = {}
+                    for k, v in bools.items():
+                        t = k[5:]
+                        who = "coef" if t.startswith("coef") else (
+                            "c" if t.startswith(var + ".second") else None)
+                        pred = "pos" if "is_positive()" in t else (
+                            "neg" if "is_negative()" in t else None)
+                        if who is None or pred is None:
+                            return None
+                        sg.setdefault(who, {})[pred] = v
+                    out = None
+                    for cw in (("zero", "int"), ("pos", "int"),
+                               ("neg", "int")):
+                        d = sg.get("coef", {})
+                        if any(d.get(p_, cw[0] == p_) != (cw[0] == p_)
+                               for p_ in ("pos", "neg")):
+                            continue
+                        for c in (("pos", "int"), ("neg", "int")):
+                            d = sg.get("c", {})
+                            if any(d.get(p_, c[0] == p_) != (c[0] == p_)
+                                   for p_ in ("pos", "neg")):
+                                continue
+                            term = tri.world_prod(c, ws[0])
+                            res = set().union(*[tri.world_sum(cw, t)
+                                                for t in term]) \
+                                if term else set()
+                            if out is None:
+                                out = ([cw, c, ws[0]], res)
+                            bad = [w for w in res]
+                            # keep the combination with the most worlds
+                            if len(res) > len(out[1]):
+                                out = ([cw, c, ws[0]], res)
+                    return out
+                what = "coef + c*key"
             else:
                 continue
             if lv is None:
@@ -668,8 +711,9 @@ def world_soundness(prog, R, V):
             R.instance("R34.7", key, sample={
                 "handler": key, "shape": what, "assignments": len(lv)})
             seen = set()
+            res_cb = result if what == "coef + c*key" else None
             for a, r, ws, bad in tri.unsound_worlds(lv, meta, mem, own, op,
-                                                    objs, extra):
+                                                    objs, extra, res_cb):
                 sig = "%s:%s" % ("true" if r == "T" else "false",
                                  "*".join(w[0] for w in ws) if cls == "Mul"
                                  else "+".join(w[0] for w in ws))
